@@ -134,6 +134,6 @@ def make(P):
 
 SYM = ("L symbolic operations, each in {open, take a point, close} x run key in {0, 'b', None->'outer' via an enclosing set_run_key_wrapper} or null; duplicate opens are attempted; "
        "optionally a pause (resumed) at loop step k1")
-register(Harness("c14_keys", "C14", make, {"quick": dict(L=4, shards=32, budget_s=300, per_path_s=30), "thorough": dict(L=5, shards=96, budget_s=3000, per_path_s=30)},
+register(Harness("c14_keys", "C14", make, {"quick": dict(L=3, shards=32, budget_s=300, per_path_s=30), "thorough": dict(L=4, shards=96, budget_s=3000, per_path_s=30)},
                  goals=["two-keys", "dup-open-rejected", "paused", "resumed"], functions=_fns, mode="schedule", symbolic=SYM,
                  out_of_bound=OUT + "; more than three run keys; suspensions (C03/C11 sweep nested runs)", stubs=STUBS, require_exhaustive=True))
